@@ -431,6 +431,9 @@ func (m *Machine) equalsV(t types.Type, x, y value) value {
 		if x.t == nil {
 			return true
 		}
+		if x.t == rtypeType {
+			return x.v.(rtype).eq(t, yi.v)
+		}
 		if !types.Comparable(x.t) {
 			panic(targetRuntimeError(fmt.Sprintf("comparing uncomparable type %s", x.t)))
 		}
